@@ -192,6 +192,44 @@ pub fn run_check(replay: Option<Value>) -> i32 {
             }
         }
     }
+    // Radau through its own builder, with either step size controller: interior versus endpoints over whole runs
+    for (pi, p0) in problems().iter().enumerate() {
+        for backward in [false, true] {
+            for classical in [false, true] {
+                for tol in [1e-5, 1e-8] {
+                    let pr = if backward { reflect(p0) } else { p0.clone() };
+                    let xend = if backward { -2.0 } else { 2.0 };
+                    let mut c = Cfg::new(Method::RADAU, 0.0, xend, &pr.y0).tol(tol, tol * 1e-2);
+                    c.user_jac = true;
+                    c.radau_classical = classical;
+                    let thetas: Vec<f64> = (1..=9).map(|k| k as f64 / 10.0).collect();
+                    let r = run_lowlevel(&pr, &c, &[], &thetas, None, false);
+                    rep.evaluations += 1;
+                    rep.transitions += r.st.n_ode;
+                    if r.ok().map(|i| i.status != Status::Success).unwrap_or(true) || r.recs.len() < 4 {
+                        rep.machinery_errors.push(format!("Radau (classical {}) run failed on {}", classical, pr.name));
+                        continue;
+                    }
+                    let mut worst_end: f64 = 0.0;
+                    let mut worst_in: f64 = 0.0;
+                    for (j, q) in r.recs.iter().enumerate().skip(1) {
+                        let ex = pr.exact(0.0, &pr.y0, q.x).unwrap();
+                        worst_end = worst_end.max(q.y.iter().zip(&ex).fold(0.0f64, |a, (u, w)| a.max((u - w).abs())));
+                        for (t, v) in &r.interior[j] {
+                            let ex = pr.exact(0.0, &pr.y0, *t).unwrap();
+                            worst_in = worst_in.max(v.iter().zip(&ex).fold(0.0f64, |a, (u, w)| a.max((u - w).abs())));
+                        }
+                    }
+                    rep.validated += 1;
+                    *rep.tags.entry("radau-controllers".into()).or_insert(0) += 1;
+                    if !(worst_in <= 20.0 * worst_end + 50.0 * tol) {
+                        let key = format!("radauctl:{}:{}:{}:{:e}", pi, backward as u8, classical as u8, tol);
+                        rep.violations.push(Violation::new(&key, "radau-interior", format!("Radau (predictive {}) on {} tol {:e}: worst interior error {:e} vs worst endpoint error {:e}", !classical, pr.name, tol, worst_in, worst_end), json!({"key": key})).with("method", "RADAU"));
+                    }
+                }
+            }
+        }
+    }
     // sol(t) / sol_many / t_eval through solve_ivp are as trustworthy as the endpoints (both directions)
     // the last one is dissipative (y' = -20 (y - g) + g', y = g): its endpoint errors stay at the level of
     // the local error, so that a loss of one order inside the steps is not hidden by accumulated error
@@ -287,6 +325,16 @@ pub fn run_check(replay: Option<Value>) -> i32 {
                     _ => f64::INFINITY,
                 };
                 report("t_eval", w3, &mut rep);
+                // (3b) dense output next to a t_eval that ends well before xend: sol(t) over the whole span
+                let mut cs = c.clone();
+                cs.t_eval = Some(vec![0.2 * xend, 0.4 * xend]);
+                let rs = run(&pr, &cs);
+                rep.evaluations += 1;
+                let w3b = match rs.sol() {
+                    Some(st) if st.status == Status::Success && st.t.len() == 2 => ts.iter().fold(0.0f64, |a, t| a.max(st.sol(*t).map(|v| errof(*t, &v)).unwrap_or(f64::INFINITY))),
+                    _ => f64::INFINITY,
+                };
+                report("sol(next to a short t_eval)", w3b, &mut rep);
                 // (4) dense output of a run stopped by a terminal event inside a step: the truncated
                 // last segment is as good as the others
                 let mut ce = c.clone();
